@@ -1,5 +1,6 @@
 import WgslVerif.Lemmas.Gen
 import WgslVerif.Props.C04
+import WgslVerif.Props.C03
 import WgslVerif.Ext.WgpuBinding
 /-
 C02 – Bind group layouts pass wgpu's shader-interface validation
@@ -261,5 +262,52 @@ theorem C02_pipeline {m : Module} {o : Options} {src : String} {path : Option St
   have h4 := C04 hg
   rw [h4.pipeline, h4.numbering]
   exact List.getElem?_range (lt_groupCount hv)
+
+/-- **C02** ("is visible to that stage"): in a successful generation, the layout entry of a resource variable is visible to every
+stage that has an entry point statically using the variable (directly or through helper functions) - the stage set is C03's,
+here attached to the entry that `check_stage` looks up at the variable's `@group/@binding` (`C02_partial`, `C02_pipeline`). -/
+theorem C02_visible {m : Module} {o : Options} {src : String} {path : Option String} {out : Out}
+    (hv : CallsEarlier m) (hg : gen m o src path = .ok out) :
+    ∀ g ∈ out.groups, ∀ ve ∈ (varsOf m g.no).zip g.entries, ∀ n, ve.1.name = some n →
+      ∀ e ∈ m.entries, StaticallyUses m e n → ve.2.vis.has e.stage = true := by
+  have hp := gen_ok hg
+  obtain ⟨data, hdata, hpg, hbg⟩ := hp.data
+  have hcontent := C11_ok_content (boundGlobals m) data hdata
+  unfold bindGroupsModule at hbg
+  obtain ⟨groups, hgroups, hbg⟩ := Except.bind_ok hbg
+  injection hbg with hbg
+  have hgr : out.groups = groups := (Prod.mk.inj hbg).1.symm
+  intro g hgm ve hve n hn e he hu
+  rw [hgr] at hgm
+  obtain ⟨kb, hkb, hf⟩ := mapM_ok_mem hgroups g hgm
+  obtain ⟨hl, _⟩ := hcontent.2.2 kb.1 kb.2 (by cases kb; exact hkb)
+  unfold groupFacts at hf
+  obtain ⟨lf, _, hf⟩ := Except.bind_ok hf
+  obtain ⟨ents, hents, hf⟩ := Except.bind_ok hf
+  obtain ⟨bes, _, hf⟩ := Except.bind_ok hf
+  injection hf with hf; subst hf
+  have hvars : varsOf m kb.1 = kb.2 := by unfold varsOf; exact hl.symm
+  simp only at hve
+  rw [hvars] at hve
+  obtain ⟨hlen, hidx⟩ := mapM_ok_spec hents
+  obtain ⟨i, hi, eq⟩ := List.getElem_of_mem hve
+  simp only [List.getElem_zip] at eq
+  have hi1 : i < kb.2.length := by simp at hi; omega
+  have hi2 : i < ents.length := by simp at hi; omega
+  have hle := hidx i hi1 hi2
+  rw [← eq] at hn ⊢
+  simp only at hn ⊢
+  unfold layoutEntry at hle
+  obtain ⟨ty, _, hle⟩ := Except.bind_ok hle
+  obtain ⟨bt, _, hle⟩ := Except.bind_ok hle
+  have h2 : Except.ok _ = Except.ok ents[i] := hle
+  injection h2 with h2
+  rw [← h2]
+  simp only [hn, Option.bind_some]
+  have hvis := (C03_visibility m hv n e.stage).mpr ⟨e, he, rfl, hu⟩
+  simp only [StageMap.getD] at hvis
+  cases hgs : (globalShaderStages m).get? n with
+  | none => rw [hgs] at hvis; simp [Stages.has_none] at hvis
+  | some st => rw [hgs] at hvis; exact hvis
 
 end WgslVerif
